@@ -40,16 +40,21 @@ COMMON = ["", "   ", "Summary line.", "more prose", "```", "    >>> f(1)  # doct
 GOOGLE_HEADERS = ["Args:", "Other Parameters:", "Raises:", "Warns:", "Returns:", "Yields:", "Receives:", "Attributes:", "Functions:", "Classes:", "Modules:",
                   "Examples:", "Note:", "Note: Title", "Deprecated:"]
 GOOGLE_ITEMS = ["    a: desc", "    a (int): desc", "    *args: desc", "    **kw (dict): d", "    : desc", "    (int): desc", "    int: desc", "    nocolon",
-                "        continuation", "  two: spaces", "    f(a, b): desc", "    a (int, optional): d"]
+                "        continuation", "  two: spaces", "    f(a, b): desc", "    a (int, optional): d",
+                "    x: d\n    y: d\n    z: d", "    :"]
 NUMPY_HEADERS = ["Parameters", "Other Parameters", "Raises", "Warns", "Returns", "Yields", "Receives", "Attributes", "Functions", "Classes", "Modules", "Examples",
                  "Deprecated", "Notes", "See Also"]
 NUMPY_ITEMS = ["----------", "---", "-", "a : int", "a : int, optional", "a : {1, 2}, default 1", "*args", "**kw : dict", "a", " : int", "int", "    desc indented",
-               "        deeper", "1.0", "f(a)", "a, b : int"]
+               "        deeper", "1.0", "f(a)", "a, b : int",
+               # bare / empty names, and compound tokens (several un-annotated items: more items than the parent's tuple annotation has elements)
+               ":", ": int", "x :\n    d", "x :\n    d\ny :\n    d\nz :\n    d"]
 SPHINX_FIELDS = [":param a: desc", ":param int a: desc", ":param x y a: d", ":param:", ":param a:", ":type a: int", ":type: int", ":returns: desc", ":return:", ":rtype: int",
                  ":rtype:", ":raises ValueError: d", ":raises: d", ":raise E:", ":var v: d", ":ivar int v: d", ":cvar:", ":vartype v: int", ":type b: str", ":param b: d",
                  "    continuation", ":unknown x: d", ":param a: again", ":keyword k: d", ":key:",
                  # directives without their closing colon (the "invalid directive" path of every reader)
-                 ":param a", ":type a", ":returns", ":rtype int", ":raises E", ":var v", ":vartype v"]
+                 ":param a", ":type a", ":returns", ":rtype int", ":raises E", ":var v", ":vartype v",
+                 # empty names
+                 ":var : d", ":param : d", ":type : int", ":vartype : int", ":raises : d"]
 
 TOKENS = {
     "google": COMMON + GOOGLE_HEADERS + GOOGLE_ITEMS,
